@@ -237,11 +237,7 @@ def execute_part(rec):
                     if r.flags.writeable and r.size:
                         r += 1
                 elif hasattr(r, 'data') and isinstance(r.data, np.ndarray) and r.data.size:
-                    r.data += 1
-                    for nm in ('indices', 'indptr'):
-                        a_ = getattr(r, nm, None)
-                        if isinstance(a_, np.ndarray) and a_.size and a_.flags.writeable:
-                            a_[:] = a_[::-1].copy()
+                    r.data += 1                    # values only: index arrays are not something a caller edits by hand
         except Exception:
             pass
         ev['ck4'] = cks(A, b, x)
@@ -445,7 +441,7 @@ def execute_part(rec):
 
 
 # ---------------------------------------------------------------- scenario generation
-def rand_matrix(rng, n, m=None, density=None, allow_zero=True, unsorted=True):
+def rand_matrix(rng, n, m=None, density=None, allow_zero=True, unsorted=True, dups=False):
     m = m or n
     density = rng.choice([0.15, 0.3, 0.5, 0.8]) if density is None else density
     ptr, idx, dat = [0], [], []
@@ -455,6 +451,9 @@ def rand_matrix(rng, n, m=None, density=None, allow_zero=True, unsorted=True):
             cols = []                                  # row with no stored entry
         if unsorted and rng.random() < 0.3:
             cols = list(rng.permutation(cols))
+        if dups and cols and rng.random() < 0.35:
+            # non-canonical storage: an entry stored twice (their values add up), as row-by-row assembly produces
+            cols = cols + [cols[int(rng.integers(len(cols)))]]
         for j in cols:
             v = int(rng.integers(-4, 5))
             if v == 0 and not (allow_zero and rng.random() < 0.5):
@@ -533,6 +532,20 @@ def generate(tier, seed):
                          'x': [int(v) for v in rng.integers(-5, 6, size=n)], 'diag': 1, 'ie_pow': 10, 'cplx': 1,
                          'xi': [int(v) * xc for v in rng.integers(1, 6, size=n)],
                          'bi': [int(v) * bc for v in rng.integers(1, 6, size=n)]})
+    # non-canonical matrices: entries stored twice (row-by-row assembly, concatenated COO blocks converted without summing)
+    for j in range(80 if tier == 'thorough' else 16):
+        n = int(rng.integers(2, 8))
+        nd = int(rng.integers(0, n + 1))
+        D = [int(v) for v in rng.permutation(n)[:nd]]
+        I = [int(v) for v in rng.permutation(np.setdiff1d(np.arange(n), D))]
+        hasb = int(rng.choice([1, 1, 2]))
+        rec = {'driver': 'bc', 'n': n, 'A': rand_matrix(rng, n, dups=True), 'hasb': hasb, 'hasx': int(rng.random() < 0.7),
+               'form': ['D-array', 'I-array'][j % 2], 'D': D, 'I': I, 'b': [int(v) for v in rng.integers(-5, 6, size=n)],
+               'x': [int(v) for v in rng.integers(-5, 6, size=n)], 'diag': int(rng.choice([1, 2])), 'ie_pow': 10,
+               'family': 'stored-twice'}
+        if hasb == 2:
+            rec['B'] = rand_matrix(rng, n, dups=True)
+        recs.append(rec)
     # operands of other dtypes than float64: integer / float32 prescribed values and right-hand sides (half-integer data)
     for xdt in ('int64', 'float32', 'float64'):
         for bdt in ('int64', 'float32', 'float64'):
